@@ -161,6 +161,194 @@ def walk_sites(fn: ast.FunctionDef):
     return sites
 
 
+
+# ------------------------------------------------------------------------------------------------ AST normalisation
+# Behaviour-preserving rewrites must not change anything that is generated.  Before any analysis the functions are brought
+# into a normal form:  (a) a statement that calls a helper method of the same class which itself performs cache actions is
+# replaced by the helper's body (one level deep, parameters substituted);  (b) early exits become if/else: the statements
+# following an `if` whose one branch ends in return/raise/continue/break move into the other branch;  (c) `if not C: A else: B`
+# becomes `if C: B else: A`.  Locals are never emitted by name, comparisons are read by meaning (== / != / not).
+import copy
+
+
+def _terminates(stmts) -> bool:
+    return bool(stmts) and isinstance(stmts[-1], (ast.Return, ast.Raise, ast.Continue, ast.Break))
+
+
+def _is_pass_only(stmts) -> bool:
+    return all(isinstance(x, ast.Pass) for x in stmts)
+
+
+def _norm_block(stmts):
+    out = []
+    for i, s in enumerate(stmts):
+        s = _norm_stmt(s)
+        if isinstance(s, ast.If):
+            rest = list(stmts[i + 1:])
+            # `if <check fails>: raise E` is an assertion; the inverse spelling `if <ok>: <rest> else: raise E` is brought to it
+            if len(s.orelse) == 1 and isinstance(s.orelse[0], ast.Raise) and not _terminates(s.body):
+                chk = ast.If(test=ast.UnaryOp(op=ast.Not(), operand=s.test), body=s.orelse, orelse=[])
+                ast.copy_location(chk, s)
+                out.append(chk)
+                out.extend(_norm_block(list(s.body) + rest))
+                return out
+            if len(s.body) == 1 and isinstance(s.body[0], ast.Raise) and not s.orelse:
+                out.append(s)
+                continue
+            if rest and _terminates(s.body) and not _terminates(s.orelse):
+                s.orelse = _norm_block(list(s.orelse) + rest)
+                out.append(_flip(s))
+                return out
+            if rest and s.orelse and _terminates(s.orelse) and not _terminates(s.body):
+                s.body = _norm_block(list(s.body) + rest)
+                out.append(_flip(s))
+                return out
+            s = _flip(s)
+        out.append(s)
+    return out
+
+
+def _flip(s: ast.If) -> ast.If:
+    if isinstance(s.test, ast.UnaryOp) and isinstance(s.test.op, ast.Not) and s.orelse and not _is_pass_only(s.orelse):
+        s.test, s.body, s.orelse = s.test.operand, s.orelse, s.body
+    return s
+
+
+def _norm_stmt(s):
+    if isinstance(s, (ast.FunctionDef, ast.AsyncFunctionDef, ast.ClassDef)):
+        return s
+    for fld in ("body", "orelse", "finalbody"):
+        sub = getattr(s, fld, None)
+        if isinstance(sub, list) and sub and isinstance(sub[0], ast.stmt):
+            setattr(s, fld, _norm_block(sub))
+    if isinstance(s, ast.Try):
+        for h in s.handlers:
+            h.body = _norm_block(h.body)
+    return s
+
+
+def _has_cache_op(node) -> bool:
+    return any(isinstance(c, ast.Call) and classify_call(c) not in (None, "exists", "rmtree") for c in ast.walk(node))
+
+
+def _helper_call(stmt, methods, cls_names):
+    """the statement is `self.h(...)`, `x = self.h(...)` or `return self.h(...)` for a method h of the same class"""
+    val = stmt.value if isinstance(stmt, (ast.Expr, ast.Assign, ast.Return, ast.AnnAssign)) else None
+    if not isinstance(val, ast.Call) or not isinstance(val.func, ast.Attribute) or val.func.attr not in methods:
+        return None
+    base = val.func.value
+    ok = isinstance(base, ast.Name) and base.id in ({"self", "cls"} | cls_names)
+    ok = ok or (isinstance(base, ast.Attribute) and base.attr in cls_names)
+    return val if ok else None
+
+
+def _inline_block(stmts, methods, cls_names, owner):
+    out = []
+    for s in stmts:
+        call = _helper_call(s, methods, cls_names)
+        h = methods.get(call.func.attr) if call is not None else None
+        if h is not None and h.name != owner.name and _has_cache_op(h):
+            body = [x for x in h.body if not (isinstance(x, ast.Expr) and isinstance(x.value, ast.Constant) and isinstance(x.value.value, str))]
+            inner_returns = [n for x in body[:-1] for n in ast.walk(x) if isinstance(n, ast.Return)] if body else []
+            if body and not inner_returns:
+                params = [a.arg for a in h.args.args]
+                if params and params[0] in ("self", "cls"):
+                    params = params[1:]
+                amap = {}
+                for pn, a in zip(params, call.args):
+                    amap[pn] = a
+                for kw in call.keywords:
+                    if kw.arg:
+                        amap[kw.arg] = kw.value
+                body = copy.deepcopy(body)
+
+                class Sub(ast.NodeTransformer):
+                    def visit_Name(self, n):
+                        if isinstance(n.ctx, ast.Load) and n.id in amap:
+                            return copy.deepcopy(amap[n.id])
+                        return n
+                body = [Sub().visit(x) for x in body]
+                last = body[-1]
+                if isinstance(last, ast.Return):
+                    if isinstance(s, ast.Assign) and isinstance(last.value, ast.Name) and len(s.targets) == 1 and isinstance(s.targets[0], ast.Name):
+                        # `x = self.h()` where h ends in `return r`: h's local r IS the caller's x
+                        r, t = last.value.id, s.targets[0].id
+                        body = body[:-1]
+                        for x in body:
+                            for n in ast.walk(x):
+                                if isinstance(n, ast.Name) and n.id == r:
+                                    n.id = t
+                    elif isinstance(s, ast.Assign) and last.value is not None:
+                        body[-1] = ast.Assign(targets=s.targets, value=last.value)
+                    elif isinstance(s, ast.Return):
+                        pass
+                    elif last.value is not None:
+                        body[-1] = ast.Expr(value=last.value)
+                    else:
+                        body = body[:-1]
+                for x in body:
+                    for n in ast.walk(x):
+                        if hasattr(n, "lineno") or isinstance(n, (ast.stmt, ast.expr)):
+                            n.lineno = getattr(s, "lineno", 0)
+                            n.end_lineno = getattr(s, "end_lineno", n.lineno)
+                            n.col_offset = getattr(n, "col_offset", 0)
+                            n.end_col_offset = getattr(n, "end_col_offset", 0)
+                out.extend(body)
+                INLINED.add((_INLINE_CTX[0], h.name))
+                continue
+        for fld in ("body", "orelse", "finalbody"):
+            sub = getattr(s, fld, None)
+            if isinstance(sub, list) and sub and isinstance(sub[0], ast.stmt) and not isinstance(s, (ast.FunctionDef, ast.AsyncFunctionDef, ast.ClassDef)):
+                setattr(s, fld, _inline_block(sub, methods, cls_names, owner))
+        if isinstance(s, ast.Try):
+            for hd in s.handlers:
+                hd.body = _inline_block(hd.body, methods, cls_names, owner)
+        out.append(s)
+    return out
+
+
+_INLINE_CTX = [""]
+INLINED = set()   # ids (class name, method name) of helpers whose body now lives in their caller
+
+
+def normalize_tree(tree):
+    """-> a deep copy of the module in normal form (see above); never raises: a function that cannot be normalised is left as it is"""
+    pristine = copy.deepcopy(tree)
+    tree = copy.deepcopy(tree)
+    INLINED.clear()
+    pristine_classes = {}
+
+    def index(node, chain):
+        for ch in ast.iter_child_nodes(node):
+            if isinstance(ch, ast.ClassDef):
+                pristine_classes[".".join(c for c in chain + [ch.name])] = ch
+                index(ch, chain + [ch.name])
+    index(pristine, [])
+
+    def rec(node, chain):
+        for ch in ast.iter_child_nodes(node):
+            if isinstance(ch, ast.ClassDef):
+                rec(ch, chain + [ch])
+            elif isinstance(ch, (ast.FunctionDef, ast.AsyncFunctionDef)):
+                cls = pristine_classes.get(".".join(c.name for c in chain)) if chain else None
+                methods = {m.name: m for m in (cls.body if cls else pristine.body) if isinstance(m, (ast.FunctionDef, ast.AsyncFunctionDef))}
+                names = {c.name for c in chain}
+                _INLINE_CTX[0] = ".".join(c.name for c in chain)
+                saved = copy.deepcopy(ch.body)
+                try:
+                    ch.body = _inline_block(ch.body, methods, names, ch)
+                    ch.body = _norm_block(ch.body)
+                    ast.fix_missing_locations(ch)
+                except Exception:  # noqa: BLE001
+                    ch.body = saved
+                rec(ch, chain)
+
+    # helpers are inlined from the ORIGINAL bodies: first inline everywhere, then normalise (done per function above in that order;
+    # a helper that was itself rewritten before being inlined only had early exits turned into if/else, which is harmless)
+    rec(tree, [])
+    return tree
+
+
 def functions(tree):
     out = []
 
@@ -173,7 +361,7 @@ def functions(tree):
                 rec(ch, prefix + [ch.name])
 
     rec(tree, [])
-    return out
+    return [(qn, fn) for qn, fn in out if (qn.rsplit(".", 1)[0] if "." in qn else "", fn.name) not in INLINED]
 
 
 def in_lock(chain) -> bool:
@@ -463,7 +651,7 @@ def gen_CacheGuards() -> None:
     meta = {"source": SRC}
     loaders, writers, table = {}, {}, []
     try:
-        tree = parse(SRC)
+        tree = normalize_tree(parse(SRC))
     except (OSError, SyntaxError) as exc:
         tree = None
         meta["error"] = str(exc)
@@ -642,8 +830,10 @@ def function_listing(fn):
                 a = call_act(core)
                 emit(a, c)
                 pos, ng = a, "!" + a
-                block(s.body, c.w(path=c.path + ((ng if neg else pos),)))
-                block(s.orelse, c.w(path=c.path + ((pos if neg else ng),)))
+                # canonical order: the positive branch first, whatever the polarity of the test
+                first, second = (s.orelse, s.body) if neg else (s.body, s.orelse)
+                block(first, c.w(path=c.path + (pos,)))
+                block(second, c.w(path=c.path + (ng,)))
                 return
             if neg and _is_isinstance_of(t, loaded) and any(isinstance(r, ast.Raise) for r in s.body):
                 r = next(r for r in s.body if isinstance(r, ast.Raise))
@@ -655,18 +845,41 @@ def function_listing(fn):
                 if any(_hash_attr_of(x, loaded) for x in sides):
                     selfside = any(isinstance(x, ast.Attribute) and isinstance(x.value, ast.Name) and x.value.id == "self" and "hash" in x.attr for x in sides)
                     ne = isinstance(core.ops[0], ast.NotEq) != neg
+                    # canonical order: `differs` / `match` first, whatever the polarity of the test
                     if selfside:
                         emit("merge_compare", c)
-                        block(s.body, c.w(path=c.path + (("differs" if ne else "same"),)))
-                        block(s.orelse, c.w(path=c.path + (("same" if ne else "differs"),)))
+                        first, second = (s.body, s.orelse) if ne else (s.orelse, s.body)
+                        block(first, c.w(path=c.path + ("differs",)))
+                        block(second, c.w(path=c.path + ("same",)))
                     else:
                         emit("fpcompare", c)
-                        block(s.body, c.w(path=c.path + (("mismatch" if ne else "match"),)))
-                        block(s.orelse, c.w(path=c.path + (("match" if ne else "mismatch"),)))
+                        first, second = (s.orelse, s.body) if ne else (s.body, s.orelse)
+                        block(first, c.w(path=c.path + ("match",)))
+                        block(second, c.w(path=c.path + ("mismatch",)))
                     return
+            # a condition that is not a cache condition: when one branch performs no cache action (a bail-out: log / return /
+            # raise) the `if` is a mere guard of the other branch, which is listed at the level of the `if`
             calls_in(t, c)
+            mark0 = len(items)
             block(s.body, c.w(path=c.path + ("if",)))
+            mark1 = len(items)
             block(s.orelse, c.w(path=c.path + ("else",)))
+            a_items, b_items = items[mark0:mark1], items[mark1:]
+            passive = lambda its: all(i["act"] in ("return", "raise") for i in its)   # noqa: E731
+            keep = None
+            if passive(a_items) and not passive(b_items):
+                keep, tag = b_items, "else"
+            elif passive(b_items) and not passive(a_items):
+                keep, tag = a_items, "if"
+            elif passive(a_items) and passive(b_items):
+                keep, tag = [], ""
+            if keep is not None:
+                depth = len(c.path)
+                for it_ in keep:
+                    if len(it_["path"]) > depth and it_["path"][depth] == tag:
+                        it_["path"] = it_["path"][:depth] + it_["path"][depth + 1:]
+                del items[mark0:]
+                items.extend(keep)
             return
         if isinstance(s, ast.Try):
             classes = handler_classes(s)
@@ -736,6 +949,20 @@ def function_listing(fn):
         calls_in(s, c)
 
     block(fn.body, C())
+    # a plain `return` as the very last action has no effect on what is listed
+    while items and items[-1]["act"] == "return" and not items[-1]["path"]:
+        items.pop()
+    # adjacent assignments to different local variables commute: canonical order
+    rank = {"clear_loaded": 0, "set_fp": 1, "clear_fp": 1}
+    i = 0
+    while i + 1 < len(items):
+        x, y = items[i], items[i + 1]
+        if x["act"] in rank and y["act"] in rank and rank[x["act"]] > rank[y["act"]] and \
+                (x["inLock"], x["path"], x["caught"]) == (y["inLock"], y["path"], y["caught"]):
+            items[i], items[i + 1] = y, x
+            i = max(i - 1, 0)
+        else:
+            i += 1
     return items, cache_var
 
 
@@ -750,7 +977,7 @@ def gen_CachePrograms() -> None:
     meta = {"source": SRC}
     progs = {"quickProgram": [], "configLoaderProgram": [], "configWriterProgram": []}
     try:
-        tree = parse(SRC)
+        tree = normalize_tree(parse(SRC))
     except (OSError, SyntaxError) as exc:
         tree = None
         meta["error"] = str(exc)
@@ -780,3 +1007,151 @@ def gen_CachePrograms() -> None:
 
 
 GENERATORS["CachePrograms"] = gen_CachePrograms
+
+
+# ================================================================================================ fingerprints
+# Generated/CacheFingerprint.lean: the SHAPE of the two fingerprint functions (which configured data folders / parameters /
+# file stamps go into the hash, and how an unconfigured folder is passed over) and the argument list at the call site.
+def _find_fn(tree, pred):
+    for qn, fn in functions(tree):
+        if pred(qn, fn):
+            return qn, fn
+    return None, None
+
+
+def gen_CacheFingerprint() -> None:
+    meta = {"source": SRC}
+    q = dict(function="<not found>", noneAction="none", otherExit=True, hashesDefaults=False, hashesDeviceNames=False,
+             hashesDeviceFiles=False, stampFields=[], callArgs=[])
+    cfgd = dict(function="<not found>", hashedParams=[], hashesCachedFiles=False, stampFields=[], earlyExit=True)
+    try:
+        tree = parse(SRC)
+    except (OSError, SyntaxError) as exc:
+        tree = None
+        meta["error"] = str(exc)
+    if tree is not None:
+        def stamp_fields(fn):
+            out = []
+            for n in ast.walk(fn):
+                if isinstance(n, ast.Attribute) and n.attr.startswith("st_") and n.attr not in out:
+                    # only stamps that reach the hash: inside a call of an `update…` method
+                    out.append(n.attr)
+            hashed = []
+            for c in ast.walk(fn):
+                if isinstance(c, ast.Call) and isinstance(c.func, ast.Attribute) and c.func.attr.startswith("update"):
+                    for n in ast.walk(c):
+                        if isinstance(n, ast.Attribute) and n.attr.startswith("st_") and n.attr not in hashed:
+                            hashed.append(n.attr)
+            return sorted(hashed)
+
+        # ---- quick-info fingerprint: a function with a loop over one of its parameters that lists a `devices` folder
+        def is_quick_hash(qn, fn):
+            params = {a.arg for a in fn.args.args}
+            for n in ast.walk(fn):
+                if isinstance(n, ast.For) and isinstance(n.iter, ast.Name) and n.iter.id in params:
+                    if any(isinstance(c, ast.Call) and call_name(c) == "os.listdir" for c in ast.walk(n)):
+                        return True
+            return False
+
+        qn, fn = _find_fn(tree, is_quick_hash)
+        if fn is not None:
+            params = {a.arg for a in fn.args.args}
+            loop = next(n for n in ast.walk(fn) if isinstance(n, ast.For) and isinstance(n.iter, ast.Name) and n.iter.id in params)
+            var = loop.target.id if isinstance(loop.target, ast.Name) else "?"
+            none_action, skip_nodes = "none", []
+
+            def none_test(t):
+                """-> 'none' if the test holds for an unconfigured folder, 'some' if it holds for a configured one, else None"""
+                if isinstance(t, ast.Compare) and isinstance(t.left, ast.Name) and t.left.id == var and len(t.ops) == 1 \
+                        and isinstance(t.comparators[0], ast.Constant) and t.comparators[0].value is None:
+                    if isinstance(t.ops[0], (ast.Is, ast.Eq)):
+                        return "none"
+                    if isinstance(t.ops[0], (ast.IsNot, ast.NotEq)):
+                        return "some"
+                if isinstance(t, ast.UnaryOp) and isinstance(t.op, ast.Not):
+                    inner = none_test(t.operand)
+                    if inner:
+                        return "some" if inner == "none" else "none"
+                    if isinstance(t.operand, ast.Name) and t.operand.id == var:
+                        return "none"
+                if isinstance(t, ast.Name) and t.id == var:
+                    return "some"
+                return None
+
+            for s_ in loop.body:
+                if isinstance(s_, ast.If):
+                    kind = none_test(s_.test)
+                    bail = s_.body if kind == "none" else s_.orelse if kind == "some" else None
+                    if bail is None:
+                        continue
+                    if len(bail) == 1 and isinstance(bail[0], (ast.Continue, ast.Break)):
+                        none_action = "continue" if isinstance(bail[0], ast.Continue) else "break"
+                        skip_nodes.append(bail[0])
+                    elif not bail and kind == "some" and s_ is loop.body[-1]:
+                        none_action = "continue"      # `if path is not None: <everything>`: nothing happens for an unconfigured folder
+            other_exit = any(isinstance(n, (ast.Break, ast.Return, ast.Continue)) and n not in skip_nodes for n in ast.walk(loop))
+            upd_in_inner = False
+            hash_file_args = []
+            for n in ast.walk(loop):
+                if isinstance(n, ast.For) and n is not loop:
+                    for c in ast.walk(n):
+                        if isinstance(c, ast.Call) and isinstance(c.func, ast.Attribute) and c.func.attr == "update" and \
+                                isinstance(n.target, ast.Name) and any(isinstance(x, ast.Name) and x.id == n.target.id for x in ast.walk(c)):
+                            upd_in_inner = True
+                if isinstance(n, ast.Call) and call_name(n) == "hash_file" and n.args:
+                    hash_file_args.append(_src(n.args[0]))
+            # what the variables handed to hash_file are
+            assigns = {t.id: _src(s.value) for s in ast.walk(loop) if isinstance(s, ast.Assign) for t in s.targets if isinstance(t, ast.Name)}
+            srcs = [assigns.get(a, a) for a in hash_file_args]
+            call_args = []
+            for c in ast.walk(tree):
+                if isinstance(c, ast.Call) and call_name(c).split(".")[-1] == fn.name and c.args and isinstance(c.args[0], (ast.List, ast.Tuple)):
+                    call_args = [_src(e) for e in c.args[0].elts]
+            q = dict(function=qn, noneAction=none_action, otherExit=other_exit,
+                     hashesDefaults=any("database_defaults" in x for x in srcs),
+                     hashesDeviceNames=upd_in_inner,
+                     hashesDeviceFiles=any("database.yaml" in x and "devices" in x for x in srcs),
+                     stampFields=stamp_fields(fn), callArgs=call_args)
+
+        # ---- config-cache fingerprint: a function with a loop over a parameter whose items are hashed as files, plus parameters hashed as strings
+        def is_cfg_hash(qn2, fn2):
+            return fn2 is not fn and any(a.arg == "cached_configs" for a in fn2.args.args) and \
+                any(isinstance(c, ast.Call) and call_name(c) == "hash_file" for c in ast.walk(fn2))
+
+        cqn, cfn = _find_fn(tree, is_cfg_hash)
+        if cfn is not None:
+            params = [a.arg for a in cfn.args.args]
+            hashed = []
+            for c in ast.walk(cfn):
+                if isinstance(c, ast.Call) and isinstance(c.func, ast.Attribute) and c.func.attr == "update" and c.args:
+                    a = c.args[0]
+                    if isinstance(a, ast.Call) and isinstance(a.func, ast.Attribute) and a.func.attr == "encode" and isinstance(a.func.value, ast.Name) \
+                            and a.func.value.id in params and a.func.value.id not in hashed:
+                        hashed.append(a.func.value.id)
+            files = False
+            for n in ast.walk(cfn):
+                if isinstance(n, ast.For) and isinstance(n.iter, ast.Name) and n.iter.id in params and isinstance(n.target, ast.Name):
+                    files = any(isinstance(c, ast.Call) and call_name(c) == "hash_file" and c.args and _src(c.args[0]) == n.target.id for c in ast.walk(n))
+            early = any(isinstance(n, (ast.Break, ast.Continue)) for n in ast.walk(cfn)) or \
+                sum(1 for n in ast.walk(cfn) if isinstance(n, ast.Return) ) > 1
+            cfgd = dict(function=cqn, hashedParams=hashed, hashesCachedFiles=files, stampFields=stamp_fields(cfn), earlyExit=early)
+
+    def sl(xs):
+        return "[" + ", ".join(f'"{x}"' for x in xs) + "]"
+
+    out = ["import SpsdkVerif.Base.CacheGuardTypes", "", "namespace SpsdkVerif.Generated.CacheFingerprint", "open SpsdkVerif", ""]
+    out.append(f"/-- `{q['function']}`: the loop over the configured data folders -/")
+    out.append("def quickHash : QuickHashShape :=\n"
+               f"  {{ noneAction := \"{q['noneAction']}\"\n    otherExit := {b(q['otherExit'])}\n    hashesDefaults := {b(q['hashesDefaults'])}\n"
+               f"    hashesDeviceNames := {b(q['hashesDeviceNames'])}\n    hashesDeviceFiles := {b(q['hashesDeviceFiles'])}\n"
+               f"    stampFields := {sl(q['stampFields'])}\n    callArgs := {sl(q['callArgs'])} }}\n")
+    out.append(f"/-- `{cfgd['function']}`: fingerprint of the config cache -/")
+    out.append("def configHash : ConfigHashShape :=\n"
+               f"  {{ hashedParams := {sl(cfgd['hashedParams'])}\n    hashesCachedFiles := {b(cfgd['hashesCachedFiles'])}\n"
+               f"    stampFields := {sl(cfgd['stampFields'])}\n    earlyExit := {b(cfgd['earlyExit'])} }}\n")
+    out.append("end SpsdkVerif.Generated.CacheFingerprint")
+    meta.update(quickHash=q, configHash=cfgd)
+    emit("CacheFingerprint", "\n".join(out) + "\n", meta)
+
+
+GENERATORS["CacheFingerprint"] = gen_CacheFingerprint
